@@ -73,7 +73,10 @@ def check_backward(case, ctx):
     req = case["req"]
     inputs = None if req is None else aj.container(case["container"], [b.leaves[j] for j in req])
     try:
-        backward(b.outputs, aggs.make(case["agg"], dtype), inputs=inputs, retain_graph=case["retain"], parallel_chunk_size=case["chunk"])
+        # Sum() / Mean() are long-lived instances shared by all the cases of the process (as in a training loop whose batches have
+        # varying numbers of rows); Constant(w) is bound to its row count and built per case
+        agg = aggs.shared(case["agg"], dtype) if case["agg"]["name"] in ("Sum", "Mean") else aggs.make(case["agg"], dtype)
+        backward(b.outputs, agg, inputs=inputs, retain_graph=case["retain"], parallel_chunk_size=case["chunk"])
     except Exception as e:
         ctx.violation("backward_raised", C01._slim(case), {"error": repr(e)[:300]})
         ctx.evaluated()
@@ -178,7 +181,8 @@ def check_mtl(case, ctx):
     if case["tasks_mode"] == "explicit":
         kwargs["tasks_params"] = [aj.container(c, [C02.leaf_of(b, r) for r in refs]) for c, refs in zip(case["tasks_containers"], task_refs)]
     try:
-        mtl_backward(b.losses, list(b.features), aggs.make(case["agg"], dtype), retain_graph=case["retain"],
+        agg = aggs.shared(case["agg"], dtype) if case["agg"]["name"] in ("Sum", "Mean") else aggs.make(case["agg"], dtype)
+        mtl_backward(b.losses, list(b.features), agg, retain_graph=case["retain"],
                      parallel_chunk_size=case["chunk"], **kwargs)
     except Exception as e:
         ctx.violation("mtl_backward_raised", C02._slim(case), {"error": repr(e)[:300], "retain_graph": case["retain"],
